@@ -2,13 +2,13 @@
 # tools/verify_seed.sh <ID-dir under /tmp/seed> <demo-kind: test:<name> | sh>  — confirm a seeded change:
 # builds, full test suite passes with it, demonstration fails with it and passes without it.
 set -u
-W=/tmp/seed/$1; O=/tmp/seed/$1.out; KIND=$2
+W=/tmp/seed/$1; O=/tmp/seed/$1.out${SUB:+/$SUB}; KIND=$2
 export CARGO_NET_OFFLINE=true
 cd "$W" || exit 3
 git checkout -q -- . && git clean -fdq -e target
 git apply "$O/patch.diff" || { echo "patch does not apply"; exit 3; }
 echo "== full suite with change"
-echo "SUITE: $(cargo test --offline --release 2>&1 | grep -E "^test result|FAILED" | head -3 | tr "\n" " ")"
+echo "SUITE: $(cargo test --offline --release -- --test-threads 8 2>&1 | grep -E "^test result|FAILED" | head -3 | tr "\n" " ")"
 cargo build --release --offline 2>&1 | tail -1
 run_demo() {
   case "$KIND" in
@@ -21,3 +21,4 @@ git apply -R "$O/patch.diff"
 cargo build --release --offline 2>&1 | tail -1
 echo "== demo WITHOUT change (expect pass)"; run_demo
 git apply "$O/patch.diff"
+[ -n "${SUB:-}" ] && git apply -R "$O/patch.diff"
